@@ -551,11 +551,11 @@ func (g *seqGen) block(maxStmts int) {
 func (g *seqGen) stmt() {
 	g.budget--
 	switch k := g.draw(22, "stmt_kind"); {
-	case k <= 5:
+	case k <= 4:
 		g.stAssign()
-	case k <= 9:
+	case k <= 8:
 		g.stMutate()
-	case k <= 11:
+	case k <= 10:
 		g.stIf()
 	case k <= 14:
 		g.stTry()
@@ -997,9 +997,9 @@ func (g *seqGen) dumpSlots() {
 
 func genSeq(t *rapid.T) Case {
 	g := &seqGen{t: t, p: &prog{}, curFn: -1}
-	nfn := g.draw(3, "nfn")
+	nfn := []int{0, 1, 1, 2, 2, 3}[g.draw(5, "nfn")]
 	for i := 0; i < nfn; i++ {
-		g.fns = append(g.fns, &fnInfo{label: g.p.newLabel(), arity: g.draw(2, fmt.Sprintf("fn%d_arity", i)), throws: g.chance(1, 2, fmt.Sprintf("fn%d_throws", i))})
+		g.fns = append(g.fns, &fnInfo{label: g.p.newLabel(), arity: g.draw(2, fmt.Sprintf("fn%d_arity", i)), throws: g.chance(3, 5, fmt.Sprintf("fn%d_throws", i))})
 	}
 	g.nstatic = g.draw(2, "nstatic")
 	g.statT = make([]atype, g.nstatic)
